@@ -83,7 +83,18 @@ class StmtMixin:
 
     def s_Try(self, fr, st):
         if st.finalbody:
-            raise Unsupported('try/finally')
+            inner = ast.Try(body=st.body, handlers=st.handlers, orelse=st.orelse, finalbody=[])
+            ast.copy_location(inner, st)
+            try:
+                if st.handlers:
+                    self.s_Try(fr, inner)
+                else:
+                    self.exec_block(fr, st.body)
+            except (ReturnEx, BreakEx, ContinueEx, PyRaise) as pending:
+                self.exec_block(fr, st.finalbody)
+                raise pending
+            self.exec_block(fr, st.finalbody)
+            return
         try:
             self.exec_block(fr, st.body)
         except PyRaise as e:
